@@ -43,9 +43,9 @@ class ErrorExtraction(object):
                 try:
                     return extractor(exception)
                 except:
-                    from ._traceback import write_traceback
+                    from ._traceback import _write_extractor_traceback
 
-                    write_traceback(logger)
+                    _write_extractor_traceback(logger)
                     return {}
         return {}
 
